@@ -88,9 +88,13 @@ Inductive tkind := TkEnd | TkString | TkNumber | TkComment | TkOp | TkNewline | 
 Record token := { tk_kind : tkind; tk_kw : bool; tk_bi : bool; tk_str : str;
                   tk_srow : Z; tk_scol : Z; tk_erow : Z; tk_ecol : Z; tk_line : str }.
 
+(* a highlighted line is a list of chunks (type, text); the markup is produced at the end *)
+Definition chunk := (hl * str)%type.
+Definition render_chunks (cs : list chunk) : str := flat_map (fun c => styled (fst c) (snd c)) cs.
+Definition chunks_text (cs : list chunk) : str := flat_map snd cs.
 (* h_last: the physical line of the last token seen on the current line (None at the start of a line and after a
    token that spans lines) *)
-Record hst := { h_lines : list str; h_curline : Z; h_curcol : Z; h_buf : str; h_type : option hl; h_line : str;
+Record hst := { h_lines : list (list chunk); h_curline : Z; h_curcol : Z; h_buf : str; h_type : option hl; h_line : list chunk;
                 h_last : option str }.
 Definition hst_init : hst :=
   {| h_lines := []; h_curline := 1; h_curcol := 0; h_buf := []; h_type := None; h_line := []; h_last := None |}.
@@ -102,8 +106,8 @@ Definition line_rest (st : hst) : str :=
 
 Definition KEYERR : ekind := Other 2.
 (* the chunk closed when a line or the source ends: nothing when no token has been seen yet *)
-Definition flush_chunk (ty : option hl) (buf : str) : str :=
-  match ty with Some t => styled t buf | None => [] end.
+Definition flush_chunk (ty : option hl) (buf : str) : list chunk :=
+  match ty with Some t => [(t, buf)] | None => [] end.
 
 (* the part of the loop body that runs when the token starts on a later line than the current one *)
 Definition hl_newline (st : hst) (t : token) : hst :=
@@ -128,20 +132,20 @@ Definition hl_token (st0 : hst) (t : token) : hst :=
     let buf := if (h_curcol st <? tk_scol t)%Z then h_buf st ++ slice (tk_line t) (h_curcol st) (tk_scol t) else h_buf st in
     (* a chunk is not closed after a backslash: the next token joins it *)
     let change := negb (hl_eqb cur nt) && negb (ends_with_bsl buf) in
-    let line := if change then h_line st ++ styled cur buf else h_line st in
+    let line := if change then h_line st ++ [(cur, buf)] else h_line st in
     let buf := if change then [] else buf in
     let cur := if change then nt else cur in
     if (tk_srow t <? tk_erow t)%Z then
       (* the token spans several lines *)
       let tls := split_on NL (tk_str t) in
-      {| h_lines := h_lines st ++ [line] ++ map (fun tl => styled cur tl) (removelast (tl tls));
+      {| h_lines := h_lines st ++ [line] ++ map (fun tl => [(cur, tl)]) (removelast (tl tls));
          h_curline := tk_erow t; h_curcol := h_curcol st; h_buf := slice (last tls []) 0 (tk_ecol t);
          h_type := Some cur; h_line := []; h_last := None |}
     else
       {| h_lines := h_lines st; h_curline := tk_srow t; h_curcol := tk_ecol t; h_buf := buf ++ tk_str t;
          h_type := Some cur; h_line := line; h_last := Some (tk_line t) |}
   end.
-Fixpoint hl_loop (toks : list token) (st : hst) : list str :=
+Fixpoint hl_loop (toks : list token) (st : hst) : list (list chunk) :=
   match toks with
   | [] => h_lines st
   | t :: r =>
@@ -151,7 +155,8 @@ Fixpoint hl_loop (toks : list token) (st : hst) : list str :=
          | _ => hl_loop r (hl_token st t)
          end
   end.
-Definition split_to_lines (toks : list token) : list str := hl_loop toks hst_init.
+Definition split_chunks (toks : list token) : list (list chunk) := hl_loop toks hst_init.
+Definition split_to_lines (toks : list token) : list str := map render_chunks (split_chunks toks).
 
 Record ui := { u_arrow : str; u_delim : str }.
 Definition ui_of (utf8 : bool) : ui :=
